@@ -7,7 +7,6 @@ From BD.Sched Require Import Model Proofs ProofsFinal.
 
 Section Stop.
 Variable c : cfg.
-Hypothesis Hdone : donech c = true.
 Hypothesis Hnorep : norepeat c.
 Notation n := (nsteps c).
 Notation step := (step c).
@@ -18,11 +17,11 @@ Ltac use_after :=
   | |- context [after c ?s ?i ?ok ?e] =>
       let H := fresh "HAC" in let sa := fresh "sa" in let E := fresh "Esa" in
       pose proof (after_cases c Hnorep s i ok e) as H; remember (after c s i ok e) as sa eqn:E; clear E; destruct H;
-      unfold fphase in *; rewrite ?Hdone in *
+      try (let F := fresh "Hfp" in destruct (fphase_cases c) as [F|F]; rewrite F in * )
   | H0 : context [after c ?s ?i ?ok ?e] |- _ =>
       let H := fresh "HAC" in let sa := fresh "sa" in let E := fresh "Esa" in
       pose proof (after_cases c Hnorep s i ok e) as H; remember (after c s i ok e) as sa eqn:E; clear E; destruct H;
-      unfold fphase in *; rewrite ?Hdone in *
+      try (let F := fresh "Hfp" in destruct (fphase_cases c) as [F|F]; rewrite F in * )
   end.
 
 Ltac start_step HI Hs :=
@@ -39,7 +38,7 @@ Ltac start_step HI Hs :=
 (* ---------------------------------------------------------------------------------------------- *)
 (* a node that accounts for lastError: it failed, timed out, or its command ended after the stop *)
 Definition err_witness (x : node) : Prop :=
-  (ph x = PPost /\ st x = NError) \/
+  (ph x = PPost /\ (st x = NError \/ st x = NCancel)) \/
   (ph x = PGone /\ (st x = NError \/ st x = NCancel \/ st x = NRunning)).
 
 Record EInv (s : state) : Prop := {
@@ -108,7 +107,7 @@ Proof.
       rewrite (coherent_none_idle _ (HA i) Hst) in Hwit. intuition discriminate.
     - (* LSkipPre *) exfalso. apply is_committed_eq in H. destruct (HB _ H) as [_ Hst].
       rewrite (coherent_none_idle _ (HA i) Hst) in Hwit. intuition discriminate.
-    - (* WFinish *) right. split; [reflexivity|]. destruct Hwit as [[_ Hw2]|[Hw1 _]]; [|discriminate]. rewrite Hw2. auto.
+    - (* WFinish *) right. split; [reflexivity|]. destruct Hwit as [[_ Hw2]|[Hw1 _]]; [|discriminate]. destruct Hw2 as [Hw2|Hw2]; rewrite Hw2; auto.
     - (* SigNode *)
       match goal with |- context [w =? ?k] => destruct (Nat.eqb_spec w k) as [->|Hne]; [|exact Hwit] end.
       nsimpl. intuition congruence. }
@@ -116,7 +115,6 @@ Proof.
   all: intros _.
   all: exists i; split; [assumption|]; unfold err_witness; rewrite Nat.eqb_refl; nsimpl; auto.
   all: try (right; split; [reflexivity|]; destruct (st (nd s i)); auto; fail).
-  right. split; [reflexivity|]. specialize (HA i). unfold coherent in HA. rewrite M in HA. intuition.
 Qed.
 
 Lemma einv_step s l s' : Inv s -> EInv s -> step s l = Some s' -> EInv s'.
@@ -249,7 +247,8 @@ Proof.
     + destruct (graph_running c s); [discriminate|]. destruct (lasterr s) eqn:El; [|destruct (all_terminal c s); discriminate].
       destruct (e3 _ HE El) as (i & Hi & Hw). exists i. split; [exact Hi|].
       pose proof (HQ (conj Ec Ht) i) as Hqi. unfold qnode, qnode_gen in Hqi. destruct Hqi as (_ & _ & Q3).
-      unfold err_witness in Hw. destruct Hw as [[Hp Hs]|[Hp Hs]]; [exact Hs|].
+      unfold err_witness in Hw. destruct Hw as [[Hp Hs]|[Hp Hs]].
+      { rewrite Hp in Q3. destruct Hs as [Hs|Hs]; [exact Hs|rewrite Hs in Q3; contradiction]. }
       rewrite Hp in Q3. destruct Hs as [Hs|[Hs|Hs]]; [exact Hs| |]; rewrite Hs in Q3; contradiction.
   - intros [Hnc (i & Hi & Hei)].
     assert (Es : is_succeed c s = false).
@@ -364,7 +363,7 @@ Proof.
   rewrite Hd in Hh. cbn [exp_of expected] in Hh. rewrite app_nil_r in Hh.
   split; [|auto].
   (* no handler starts before HBegin: HStart needs pc = LHandlers, which only HBegin establishes *)
-  clear - H1 Hp1 Hdone Hnorep.
+  clear - H1 Hp1 Hnorep.
   assert (Hgen : forall ls s, in_hphase (pc s) = false -> forall s', run c s ls = Some s' -> in_hphase (pc s') = false ->
              hstarts ls = []).
   { induction ls as [|l ls IH]; intros s Hp s' Hr Hp'; [reflexivity|].
@@ -372,7 +371,7 @@ Proof.
     destruct (in_hphase (pc sx)) eqn:Epx.
     - exfalso. (* once in the handler phase, always *)
       assert (Hstay : forall ls s, in_hphase (pc s) = true -> forall s', run c s ls = Some s' -> in_hphase (pc s') = true).
-      { clear - Hdone Hnorep. induction ls as [|l2 ls IH2]; intros s Hp s' Hr; [simpl in Hr; injection Hr as <-; exact Hp|].
+      { clear - Hnorep. induction ls as [|l2 ls IH2]; intros s Hp s' Hr; [simpl in Hr; injection Hr as <-; exact Hp|].
         simpl in Hr. destruct (Model.step c s l2) as [sy|] eqn:Hs2; [|discriminate]. eapply IH2; [|exact Hr].
         eapply hphase_mono; eauto. }
       rewrite (Hstay ls sx Epx s' Hr) in Hp'. discriminate.
@@ -448,9 +447,10 @@ Proof.
   all: try (destruct (Nat.eqb_spec j i) as [->|Hne]; [|apply S4]); nsimpl; try (intros; discriminate); try (rewrite ?M; intros; discriminate).
   all: try (apply S4).
   all: try (intros _ X; destruct (st (nd s i)); discriminate).     (* WSkipExec: running -> canceled *)
-  - (* LMark *) intros _ X. subst. destruct (dep_mark_values c s d _ M); discriminate.
-  - (* WAfter ok *) intros _ _ Hd. unfold hdtrue. nsimpl. apply S3; assumption.
-  - match goal with |- context [j =? ?k] => destruct (Nat.eqb_spec j k) as [->|Hne]; [|apply S4] end. nsimpl. intros; discriminate.
+  all: try (intros _ X; subst; destruct (dep_mark_values c s d _ M); discriminate).       (* LMark *)
+  all: try (intros _ _ Hd; unfold hdtrue; nsimpl; apply S3; assumption).                 (* WAfter ok *)
+  all: try (intros _ X; exfalso; intuition congruence).                                  (* WAfter: status seen *)
+  all: try (match goal with |- context [?a =? ?k] => destruct (Nat.eqb_spec a k) as [->|Hne]; [|apply S4] end; nsimpl; intros; discriminate).
 Qed.
 
 Lemma r_step5 s l s' : Inv s -> RInv s -> step s l = Some s' ->
@@ -672,13 +672,14 @@ Proof.
 Qed.
 
 (* a command that was executing when the deadline passed and then ends is labelled canceled, the run failed *)
-Lemma timeout_cuts s i : donech c = true -> norepeat c -> ph (nd s i) = PEnded false -> st (nd s i) = NRunning ->
+Lemma timeout_cuts s i : norepeat c -> ph (nd s i) = PEnded false -> st (nd s i) = NRunning ->
   timedout s = true -> i < n ->
-  exists s', step c s (WAfter i false) = Some s' /\ st (nd s' i) = NCancel /\ ph (nd s' i) = PGone /\ lasterr s' = true.
+  exists s', step c s (WAfter i false) = Some s' /\ st (nd s' i) = NCancel /\
+             (ph (nd s' i) = PGone \/ ph (nd s' i) = PPost) /\ lasterr s' = true.
 Proof.
-  intros Hd Hn Hp Hst Ht Hi. cbn [step]. rewrite Hp. apply Nat.ltb_lt in Hi. rewrite Hi. cbn [negb orb andb].
+  intros Hn Hp Hst Ht Hi. cbn [step]. rewrite Hp. apply Nat.ltb_lt in Hi. rewrite Hi. cbn [negb orb andb].
   eexists. split; [reflexivity|].
-  unfold after, tail. rewrite Hst, Ht, (Hn i), Hd. cbn [andb].
-  unfold set_nd, set_err, upd. cbn [nd lasterr]. rewrite Nat.eqb_refl. nsimpl. auto.
+  unfold after, tail. rewrite Hst, Ht, (Hn i). cbn [andb].
+  unfold set_nd, set_err, upd. cbn [nd lasterr]. rewrite Nat.eqb_refl. nsimpl. destruct (donech c); auto.
 Qed.
 End StopMore.
